@@ -277,6 +277,8 @@ class SockState(object):
             self.step_i += 1
             if kind == "stream":
                 data = self.sim.materialise(self, step[1])
+                if len(step) > 4 and step[4].get("limit") is not None:
+                    data = data[:step[4]["limit"]]       # the stream is cut short here
                 for chunk in segment(data, step[2]):
                     self.inbox.append((chunk, due))
                 self.sim.arrivals.append((due, self.sid, len(data)))
